@@ -144,6 +144,8 @@ def compare_traj(case, om, oi, check_offsets=False):
                 return "duration sec model=%d ms impl=%s" % (ms, f[1])
             if abs(int(f[6]) - Fraction(ms, 1000)) > 1:
                 return "stats duration_sec model=%d ms impl=%s" % (ms, f[6])
+            if len(f) > 7 and f[7] != "same":
+                return "the statistics duration depends on the other components computed in the same pass: %s" % f[7]
         else:
             pa, pb = a.split(":"), b.split(":")
             if pa[0] != pb[0]:
